@@ -931,6 +931,47 @@ func (c *lchain) oraclesAfterApply(cs, ns consensus.State, b types.Block, bs con
 			}
 		}
 	}
+	// a new siafund output starts claiming from the pool as it stands when its transaction is applied: the tax of
+	// contracts formed by earlier transactions of the same block is not its to claim
+	{
+		run := cs.SiafundTaxRevenue
+		wantStart := map[types.SiafundOutputID]types.Currency{}
+		for ti := range b.Transactions {
+			txn := &b.Transactions[ti]
+			for i := range txn.SiafundOutputs {
+				wantStart[txn.SiafundOutputID(i)] = run
+			}
+			for _, fc := range txn.FileContracts {
+				run = run.Add(cs.FileContractTax(fc))
+			}
+		}
+		for ti := range b.V2Transactions() {
+			txn := &b.V2.Transactions[ti]
+			txid := txn.ID()
+			for i := range txn.SiafundOutputs {
+				wantStart[txn.SiafundOutputID(txid, i)] = run
+			}
+			for _, fc := range txn.FileContracts {
+				run = run.Add(cs.V2FileContractTax(fc))
+			}
+			for _, res := range txn.FileContractResolutions {
+				if rn, ok := res.Resolution.(*types.V2FileContractRenewal); ok {
+					run = run.Add(cs.V2FileContractTax(rn.NewContract))
+				}
+			}
+		}
+		for _, d := range au.SiafundElementDiffs() {
+			if w, ok := wantStart[d.SiafundElement.ID]; ok && d.Created {
+				r.count("oracle-claim-start")
+				if d.SiafundElement.ClaimStart != w {
+					r.violate("c01.claim-start", "siafund output %v created in block %d starts claiming at pool %v; the pool stood at %v when its transaction was applied", d.SiafundElement.ID, ns.Index.Height, d.SiafundElement.ClaimStart, w)
+				}
+			}
+		}
+		if run != ns.SiafundTaxRevenue {
+			r.violate("c01.pool", "the pool after block %d is %v; the taxes of its contracts add up to %v", ns.Index.Height, ns.SiafundTaxRevenue, run)
+		}
+	}
 	// claims: exact share, and accumulate what was paid
 	pool := cs.SiafundTaxRevenue
 	check := func(parent types.SiafundElement, cid types.SiacoinOutputID, poolAtSpend types.Currency, addr types.Address) {
